@@ -1,1 +1,8 @@
 import MpsProofs.Frame
+import MpsProofs.Typed
+import MpsProofs.Session
+import MpsProofs.Handler
+import MpsProofs.Echo
+import MpsProofs.Blame
+import MpsProofs.TwoParty
+import MpsProofs.Pool
